@@ -22,6 +22,9 @@ claimed = {
  "C07": dict(level="exploration", technique="property-based testing (rapid) + bounded-exhaustive enumeration of command sequences (stateful / history-based): invariants over the observed snapshot sequence of real pty sessions",
    text="Every command sequence of length 3 (quick) / 5 (thorough) over a 13-command alphabet from two start states in emacs and vi modes is executed, and random sequences up to length 60 beyond; four history invariants (undo membership, reach-initial, undo^n redo^n = id, redo branch discarded by an edit) are checked over the buffers observed at every input wait. The exhaustive part is reported as exhaustive_subspaces inside an exploration-level record.",
    note=RIG_NOTE + " One command per read.", ref="DESIGN.md §3 C07"),
+ "C08": dict(level="exploration", technique="property-based testing (rapid), model-based: generated source sets x prior contents x history-size x lines x accept variants through real Readline calls; per-source list model",
+   text="For every generated combination the contents of every bound source (library in-memory, library file-backed, harness recording source) are read through the Source API before the call and after each return and compared with a per-source list model (append-once / skip rules of the statement).",
+   note=RIG_NOTE, ref="DESIGN.md §3 C08"),
  "C10": dict(level="fault_enumeration", technique="property-based testing (rapid) of generated histories + exhaustive enumeration of every truncation offset of the last append (crash points); list-model oracle; native fuzzing of file contents in the thorough tier",
    text="For each generated history every byte offset of the last record is used as a crash point (exhaustively for records up to 600 bytes, first/last 96 bytes plus spread offsets beyond): reopen must succeed, keep the completed entries in order, and a later append must be durable. The histories themselves are sampled, the crash points per history are enumerated: fault enumeration.",
    note="Models a process death as a prefix of the single O_APPEND write; no claims about kernel or disk failure. API-only (NewHistoryFromFile, Write, Len, GetLine).", ref="DESIGN.md §3 C10"),
